@@ -1404,6 +1404,18 @@ func (env *specEnv) locOf(e ast.Expr) []*locRef {
 				}
 				env.fail("pointee(%s): the dynamic type is not a pointer type known at the call site", exprString(t.Args[0]))
 			}
+			if id.Name == "elemsof" && len(t.Args) == 1 {
+				// every element of every slice / array of the given slice type
+				sty := ex.eng.resolveType(t.Args[0], env.pkgPath)
+				if sty == nil {
+					env.fail("elemsof: unknown type %s", exprString(t.Args[0]))
+				}
+				sl, ok := sty.Underlying().(*types.Slice)
+				if !ok {
+					env.fail("elemsof expects a slice type")
+				}
+				return []*locRef{{classes: ex.eng.leafClasses("elem", sl.Elem(), ""), region: func(key []*Term) *Term { return True }}}
+			}
 			if id.Name == "anymapof" && len(t.Args) == 1 {
 				// every entry of every map of the given map type
 				mt := ex.eng.resolveType(t.Args[0], env.pkgPath)
